@@ -293,11 +293,45 @@ func stripSourceRetention(m protoreflect.Message) {
 	})
 }
 
+func countSourceRetention(m protoreflect.Message) int {
+	n := 0
+	m.Range(func(fd protoreflect.FieldDescriptor, v protoreflect.Value) bool {
+		if o, ok := fd.Options().(*descriptorpb.FieldOptions); ok && o.GetRetention() == descriptorpb.FieldOptions_RETENTION_SOURCE {
+			n++
+			return true
+		}
+		switch {
+		case fd.IsMap():
+		case fd.IsList():
+			if fd.Message() != nil {
+				for i := 0; i < v.List().Len(); i++ {
+					n += countSourceRetention(v.List().Get(i).Message())
+				}
+			}
+		case fd.Message() != nil:
+			n += countSourceRetention(v.Message())
+		}
+		return true
+	})
+	return n
+}
+
 func checkDescriptors(lv *levelCtx) {
 	for _, name := range lv.Level.Files {
 		want0, _ := lv.files.FindFileByPath(name)
-		want := protodesc.ToFileDescriptorProto(want0)
+		// both sides are brought into one representation: custom options arrive as unknown fields and are
+		// resolved here against the option extensions declared by the input itself
+		renorm := func(p *descriptorpb.FileDescriptorProto) *descriptorpb.FileDescriptorProto {
+			b, err := proto.MarshalOptions{Deterministic: true}.Marshal(p)
+			q := &descriptorpb.FileDescriptorProto{}
+			if err != nil || (proto.UnmarshalOptions{Resolver: lv.dtypes}).Unmarshal(b, q) != nil {
+				return p
+			}
+			return q
+		}
+		want := renorm(protodesc.ToFileDescriptorProto(want0))
 		want.SourceCodeInfo = nil
+		nsrc := countSourceRetention(want.ProtoReflect())
 		stripSourceRetention(want.ProtoReflect())
 		got0, err := protoregistry.GlobalFiles.FindFileByPath(name)
 		out.Evals++
@@ -305,10 +339,14 @@ func checkDescriptors(lv *levelCtx) {
 			fail(lv, "generated package does not register its file descriptor", "", nil, nil, name+": "+err.Error())
 			continue
 		}
-		got := protodesc.ToFileDescriptorProto(got0)
+		got := renorm(protodesc.ToFileDescriptorProto(got0))
 		if !proto.Equal(got, want) {
 			fail(lv, "registered file descriptor differs from the input (minus source info / source-retention options)", "", nil, nil,
-				name+": "+diffText(prototext.MarshalOptions{Multiline: true}.Format(got), prototext.MarshalOptions{Multiline: true}.Format(want)))
+				name+": "+diffText(prototext.MarshalOptions{Multiline: true, Resolver: lv.dtypes}.Format(got), prototext.MarshalOptions{Multiline: true, Resolver: lv.dtypes}.Format(want)))
+		}
+		if nsrc > 0 {
+			hist("descriptor-source-retention-options-stripped")
+			out.Hist["source-retention-option-values"] += nsrc
 		}
 		hist("descriptor-equal")
 	}
